@@ -125,7 +125,8 @@ class C12(Prop):
     id = "C12"
     theorems = ["stackNew_get", "stackNew_shape", "concat2_get", "concat2_shape", "transpose_names_dims",
                 "reorderLikeFirst_dims", "reorderLikeFirst_error", "stack_spec", "stack_error_is_not_ok_of_label_mismatch",
-                "concatenate_labels"]
+                "concatenate_labels", "concatenate_spec", "joinOffset_cover", "concatenate_refuses_mismatch", "concatenate_ok_secondary", "stack_noalign_spec", "stack_refuses_mismatch",
+                "stack_align_spec", "stack_align_value", "concatenate_align_spec"]
     rule = ("lists and dicts of 1-4 arrays over one set of dimensions listed in the same or in a different order "
             "(square shapes included so that a positional mix-up is shape-compatible), secondary axes equal / permuted / "
             "overlapping / disjoint, int/float/str labels; stack with int/str keys and explicit / default axis name; "
